@@ -172,6 +172,9 @@ class CallMixin(object):
                     raise OutsideSubset('call to %s.%s: no contract' % (recv.sort.cls, fv.name))
                 if not self.spec_mode:
                     self.raise_if(st, recv.t == null, 'AttributeError', 'method call on None')
+                real = self.find_helper(recv.sort.cls, fv.name)
+                if real is not None and any(ast.unparse(d) == 'staticmethod' for d in real.decorator_list):
+                    return self.call_contract(ct, args, kwargs, st)        # a static method reached through an instance: no receiver
                 return self.call_contract(ct, [recv] + args, kwargs, st)
             return self.call_lib_method(recv, fv.name, args, kwargs, st, node)
         if isinstance(fv, SV) and is_ref(fv.sort) and fv.sort.cls == 'type' and not args and not kwargs and not self.spec_mode:
